@@ -235,8 +235,57 @@ def _run_order(task, c):
     return res
 
 
+_OPT_SUB = r"""
+import sys, types, json, random
+repo = sys.argv[1]
+m = types.ModuleType('eolib'); m.__path__ = [repo + '/src/eolib']; sys.modules['eolib'] = m
+from eolib.packet import sequence_start as S
+random.seed(int(sys.argv[2]))
+out = []
+for kind, cls, rebuild in (('INIT', S.InitSequenceStart, S.InitSequenceStart.from_init_values),
+                           ('PING', S.PingSequenceStart, S.PingSequenceStart.from_ping_values),
+                           ('ACCOUNT_REPLY', S.AccountReplySequenceStart, S.AccountReplySequenceStart.from_value)):
+    for _ in range(300):
+        try:
+            o = cls.generate()
+            comps = (o.value,) if kind == 'ACCOUNT_REPLY' else (o.seq1, o.seq2)
+            out.append([kind, o.value, list(comps), rebuild(*comps).value])
+        except Exception as e:
+            out.append([kind, 'raised ' + type(e).__name__, [], None])
+print(json.dumps(out))
+"""
+
+
+def _run_opt(task):
+    """Configuration spot check: 300 generate() calls per kind (real random source, seeded) in fresh
+    `python -O` / `-OO` interpreters; range, field fit and reconstruction are checked on every result."""
+    import json
+    import subprocess
+    import sys
+    from vlib.runner import REPO
+    res = TaskResult()
+    for flag in ("-O", "-OO"):
+        r = subprocess.run([sys.executable, "-B", flag, "-c", _OPT_SUB, REPO, str(task["seed"])], capture_output=True, text=True)
+        if r.returncode != 0:
+            raise HarnessError(f"python {flag} helper failed: {r.stderr[-800:]}")
+        for kind, value, comps, back in json.loads(r.stdout.strip().splitlines()[-1]):
+            case = {"kind": kind, "pyflag": flag, "value": value, "components": comps}
+            if isinstance(value, str):
+                res.violation(Violation("generation_never_fails:optimized_interpreter", case, "a sequence start", value))
+                return res
+            lim = {"INIT": (253, 253), "PING": (253 ** 2, 253), "ACCOUNT_REPLY": (253,)}[kind]
+            ok = 0 <= value <= VALUE_MAX[kind] and all(0 <= x < l for x, l in zip(comps, lim)) and back == value
+            if not ok:
+                res.violation(Violation("holds_under_optimized_interpreter", case, "in range, fitting, reconstructible", [value, comps, back]))
+                return res
+            res.extra["optimized_interpreter_calls"] = res.extra.get("optimized_interpreter_calls", 0) + 1
+    return res
+
+
 def run_task(task):
     c = loader.core()
+    if task.get("opt"):
+        return _run_opt(task)
     if task.get("order"):
         return _run_order(task, c)
     kind, w, nw = task["kind"], task["w"], task["nw"]
@@ -299,6 +348,7 @@ def plan(tier, seed):
     for kind in KINDS:
         for w in range(4):
             tasks.append({"kind": kind, "w": w, "nw": 4, "order": True})
+    tasks.append({"kind": "INIT", "w": 0, "nw": 1, "opt": True, "seed": seed})
     return tasks
 
 
